@@ -552,7 +552,9 @@ def _compute_sfs(
     if h is None:
         h = 0.5
     xx = dadi.Numerics.default_grid(pts)
-    phi = dadi.PhiManip.phi_1D(xx, theta0=theta, gamma=gamma, h=h, deme_ids=[root_deme])
+    # the root deme's size relative to Ne (1 unless the caller supplied Ne)
+    nu_root = nu_funcs[0][0]
+    phi = dadi.PhiManip.phi_1D(xx, nu=nu_root, theta0=theta, gamma=gamma, h=h, deme_ids=[root_deme])
     
     # for each set of demographic events and integration epochs, step through
     # integration, apply events, and then reorder populations to align with demes
